@@ -14,7 +14,7 @@ from .common import Hist, make_cfg, method_tree, slot
 from .reportlib import tr
 
 PROPS = ("C20",)
-BUDGET = {"quick": 900, "thorough": 3600}
+BUDGET = {"quick": 900, "thorough": 1500}
 CHUNK = 40
 YEARS = (2019, 2020, 2021, 2022)
 KINDS = {"B": ("IN", "BUY"), "I": ("IN", "INTEREST"), "S": ("OUT", "SELL"), "M": ("INTRA", "MOVE"), "G": ("IN", "GIFT")}
